@@ -307,10 +307,10 @@ def r3_floor_ceil_pairing(repo=None):
             r.violation(LIB, F, c.nsrc[:80], "ceil helper called with something other than the channel's numerator, "
                         "denominator (in that order)", line=c.line)
             continue
-        if (a0, msv) == (sec_v, ms_v):
-            c_this = (c, outv)
+        d0, d1 = _divmod_of(fn, a0) if a0 else None, _divmod_of(fn, msv) if msv else None
+        if (a0, msv) == (sec_v, ms_v) or (d0 and d1 and d0 == ("/", file_ms) and d1 == ("%", file_ms)):
+            c_this = (c, outv)      # the same (second, millisecond) split of the file's start time that is printed into the name
         else:
-            d0, d1 = _divmod_of(fn, a0) if a0 else None, _divmod_of(fn, msv) if msv else None
             if d0 and d1 and d0[0] == "/" and d1[0] == "%" and d0[1] == d1[1]:
                 nxt = _single_def(fn, d0[1])
                 if len(nxt) == 1:
